@@ -58,6 +58,7 @@ def h09_rabbit(S):
 
     confirm = [0, 3][S.pick("confirm_after_delivery", 2)]
     backoff_ms = [0, 5][S.pick("retry_backoff_ms", 2)]
+    n_warmup = [0, 4][S.pick("earlier_saturation_episode", 2)]
     runs = []
     done = []
     out = {}
@@ -88,10 +89,18 @@ def h09_rabbit(S):
             gate.set()
             done.append("short")
 
+        @r.actor(converter=BasicConverter)
+        async def warmup():
+            runs.append("warmup")
+            await asyncio.sleep(Fraction(1, 100))
+            done.append("warmup")
+
         await Job("flaky", retries=1, _connection=w.conn).enqueue()
-        worker = Worker(routers=[r], handle_signals=[], _connection=w.conn, graceful_shutdown_time=1.0, messages_limit=4, tasks_limit=2)
+        for _ in range(n_warmup):
+            await Job("warmup", _connection=w.conn).enqueue()       # more than the worker's two slots: it saturates, pauses and resumes
+        worker = Worker(routers=[r], handle_signals=[], _connection=w.conn, graceful_shutdown_time=1.0, messages_limit=4 + n_warmup, tasks_limit=2)
         task = asyncio.create_task(worker.run())
-        await asyncio.sleep(Fraction(1, 10))            # the retry has been processed; the worker is idle with two free slots
+        await asyncio.sleep(Fraction(3, 10))            # all of that has been processed; the worker is idle with two free slots
         await Job("long", _connection=w.conn).enqueue()
         await Job("short", _connection=w.conn).enqueue()
         try:
@@ -106,7 +115,7 @@ def h09_rabbit(S):
         S.check("no-stall", False, info="deadlock")
         return
     S.cover("rabbit-retry-then-two-jobs")
-    S.check("free-slot-gets-the-next-deliverable-message", sorted(done) == ["flaky", "long", "short"] and out["returned"],
+    S.check("free-slot-gets-the-next-deliverable-message", sorted(x for x in done if x != "warmup") == ["flaky", "long", "short"] and out["returned"],
             info=f"runs={runs} completed={done}: with two slots `short` must run while `long` waits for it")
 
 
